@@ -62,6 +62,11 @@ STRICT = {
 # format but ordinary unparsable content of the body.
 for _fam in STRICT:
     STRICT[_fam] = STRICT[_fam] + ["{", "}", "} ", "[Song]", "[ExpertSingle]"]
+# Free text with characters that are special to formatting layers (logging %-formatting,
+# str.format, escapes): still just free text for the parser.
+for _fam in ("instrument", "sync", "events"):
+    STRICT[_fam] = STRICT[_fam] + ["100% free text", "%s and %d", "50%", "{0} and {name}", "{}",
+                                   "back\\slash \\n", "%(name)s"]
 RELATIVE = {
     "instrument": ["= = =", "12 34", "{t} = ", "{t} = Q 1 2", "{t} = N", "N 0 0", "{t} == N 0 0",
                    "zero = N 0 0", "{t} = n 0 0", "{t} = N 0 0 0 junk", "-5 = N 0 0", "{t} = S 0 10",
@@ -224,32 +229,38 @@ def execute(plan: dict[str, Any]) -> dict[str, Any]:
             r = results.get(v["name"])
             if r is None:
                 continue
-            # reports for the injected junk lines
-            track_msgs = [x[2] for x in r["log"] if x[1] in ("WARNING", "ERROR", "CRITICAL")
-                          and not x[0].endswith(".chart")]
+            # the code's own verdict on each injected line, from the dispatcher monitor (every
+            # kind of the section's own dispatcher was tried on it): [] = unparsable, None = the
+            # monitor did not see the line (seam absent on this tree)
             all_reported = True
+            expected_reports: int | None = 0
             for j in v["junk"]:
-                rendered = "  " + j["line"]
-                # the code's own verdict on this line, from the dispatcher monitor (every kind of
-                # the section's own dispatcher was tried on it): [] = unparsable
-                verdict = mon.claims.get(rendered)
+                verdict = mon.claims.get("  " + j["line"])
                 if verdict is None or verdict:
                     all_reported = False
-                if j["line"].strip():
-                    pat = re.compile(re.escape(rendered) + r"(?![0-9A-Za-z])")
-                    reported = any(pat.search(m) for m in track_msgs)
-                else:
-                    reported = len(track_msgs) > 0
-                if not reported:
-                    if j["strict"] and fam != "song" and r["kind"] == "ok":
-                        add("conservation", "strict-junk-not-reported",
-                            f"variant {v['name']}: junk line {j['line']!r} inserted into [{plan['target']}] "
-                            f"was not reported as unparsable (reports: {track_msgs[:4]})")
+                if j["strict"] or verdict == []:
+                    if expected_reports is not None:
+                        expected_reports += 1
+                elif verdict is None:
+                    expected_reports = None  # relative candidate of unknown status: no count claim
             like = v.get("like")
             if like is None or like not in results:
                 continue
             ref = results[like]
             strict_only = all(j["strict"] for j in v["junk"])
+            # "reported once": counted, never matched by text (the wording of a report is not part
+            # of the property): the variant must produce exactly one renderable report more than
+            # its junk-free relative for every injected line that is unparsable
+            if (fam != "song" and r["kind"] == "ok" and ref["kind"] == "ok"
+                    and expected_reports is not None and v["junk"]):
+                delta = _n_reports(r) - _n_reports(ref)
+                if delta != expected_reports:
+                    cls = "strict-junk-not-reported" if delta < expected_reports else "over-reported"
+                    add("conservation", cls,
+                        f"variant {v['name']}: {len(v['junk'])} line(s) {[j['line'] for j in v['junk']][:4]} "
+                        f"inserted into [{plan['target']}], {expected_reports} of them unparsable, but the "
+                        f"parse made {delta} report(s) more than variant {like} "
+                        f"(reports: {[x[2] for x in r['log']][:4]})")
             judge = strict_only or all_reported
             if not judge:
                 continue  # a relative candidate the code chose to parse: no locality claim
@@ -284,6 +295,12 @@ def execute(plan: dict[str, Any]) -> dict[str, Any]:
         "harness_error": harness_error,
         "explicit_schedule": sched.explicit_schedule(),
     }
+
+
+def _n_reports(r: dict[str, Any]) -> int:
+    from detsim import world
+
+    return sum(1 for x in r["log"] if not x[2].startswith(world.UNFORMATTABLE))
 
 
 def _short(r: dict[str, Any]) -> str:
